@@ -2087,6 +2087,7 @@ lys_compile_node_augments(struct lysc_ctx *ctx, struct lysc_node *node)
     uint32_t i;
     char orig_path[LYSC_CTX_BUFSIZE];
     struct lysc_augment *aug;
+    struct ly_set orig_groupings;
 
     /* uses augments, the ones of nested (inner) uses were stored later but are applied first */
     for (i = ctx->uses_augs.count; i > 0; ) {
@@ -2136,8 +2137,14 @@ lys_compile_node_augments(struct lysc_ctx *ctx, struct lysc_node *node)
         lysc_update_path(ctx, NULL, "{augment}");
         lysc_update_path(ctx, NULL, aug->aug_p->nodeid);
 
-        /* apply augment, restore the path */
+        /* the augment is not a part of any grouping being instantiated, compile it with an empty groupings stack */
+        orig_groupings = ctx->groupings;
+        memset(&ctx->groupings, 0, sizeof ctx->groupings);
+
+        /* apply augment, restore the groupings stack and the path */
         ret = lys_compile_augment(ctx, aug->aug_p, node);
+        ly_set_erase(&ctx->groupings, NULL);
+        ctx->groupings = orig_groupings;
         strcpy(ctx->path, orig_path);
         ctx->path_len = strlen(ctx->path);
         LY_CHECK_GOTO(ret, cleanup);
